@@ -397,7 +397,7 @@ impl Property for C13 {
         Meta {
             level: "exploration",
             rule: "each run is a history of 4-40 Builder calls biased to id allocation: id(), every generated type_* / type_*_id method and type_pointer with and without explicit ids over a small request pool (so equal requests recur), constants and other module-level calls, functions/blocks/parameters, block methods with implicit result ids called while no block is selected (they reserve an id and then fail), context-dependent calls; one run in five takes the module and continues with Builder::new_from_module; checked: fresh ids strictly increasing and distinct starting at 1 (or at the bound when continuing), final bound = id()+1, implicit type requests return an existing identical declaration's id and add nothing or append exactly one declaration with a fresh id, explicit ids always append, no duplicate types when all requests were implicit, different requests never share an id; abstract trace = sequence of (call class, explicit?, ok/err); non-trivial = >= 3 allocations or a call that failed after reserving an id",
-            lanes: "set_version anywhere; half of the runs take module() without a final id() probe; begin_block_no_label; continuation from arbitrary header bounds (0, 1, 2^31, ...); biased decorate / forward-pointer / struct / array / constant arguments so that related requests recur; near-repeat lane (a request again, or with one enumerant / id / literal changed, one optional operand toggled) and method-repeat post-pass; capability / extension / memory_model / name calls between type requests; enumerants biased to the well-known low numbers",
+            lanes: "set_version anywhere; half of the runs take module() without a final id() probe; begin_block_no_label; continuation from arbitrary header bounds (0, 1, 2^31, ...); biased decorate / forward-pointer / struct / array / constant arguments so that related requests recur; near-repeat lane (a request again, or with one enumerant / id / literal changed, one optional operand toggled) and method-repeat post-pass; capability / extension / memory_model / name calls between type requests; enumerants biased to the well-known low numbers; explicit ids that repeat the id of an existing declaration or one of the request's own operands",
             triple_measure: "(call class, explicit id?, ok/err)",
             item_measure: "type methods (generated table) whose dedup/append behaviour was checked",
             assumptions: &[
